@@ -462,6 +462,23 @@ func corpus(g *gen) {
 	h("h8", []string{"wrap", "InfNest", "i", "-", "-", "S2 S2 i1 s61 S5 f i2 d0 s z"}, []string{"wrap", "Inner", "i", "-", "-", inner},
 		[]string{"wrap", "Prims", "i", "-", "-", "S5 f i2 d0 s z"})
 
+	// maps of struct values: an optional field / a list set by one entry and omitted / shorter in the next
+	// (each entry is assembled into its own Go value: nothing carries over, in either order, at either level)
+	ea := "m3 k4e616d65 s78 k546167 s74 k4c a2 s71 s72"
+	eb := "m2 k4e616d65 s79 k4c a0"
+	ec := "m3 k4e616d65 s7a k546167 s75 k4c a1 s73"
+	g.add("mo1", "build", "MapSO", "T", "", "", "m2 k61 "+ea+" k62 "+eb)
+	g.add("mo2", "build", "MapSO", "R", "", "", "m3 k61 "+ea+" k62 "+eb+" k63 "+ec)
+	g.add("mo3", "build", "MapSO", "T", "", "", "m3 k62 "+eb+" k61 "+ea+" k63 "+eb)
+	g.add("mo4", "build", "MapSO", "R", "", "", "m2 k63 "+ec+" k62 "+eb)
+	oa := "m3 k496e m2 k58 i1 k59 s61 k50 m2 k58 i2 k59 s62 k4e616d65 s6e"
+	ob := "m2 k496e m2 k58 i3 k59 s63 k4e616d65 s6d"
+	g.add("mo5", "build", "MapOuter", "T", "", "", "m2 k61 "+oa+" k62 "+ob)
+	g.add("mo6", "build", "MapOuter", "R", "", "", "m3 k61 "+oa+" k62 "+ob+" k63 "+oa)
+	h("h9", []string{"unmarshal", "MapSO", "x", "json", "-", "m2 k61 " + ea + " k62 " + eb},
+		[]string{"unmarshal", "MapSO", "x", "cbor", "-", "m3 k61 " + ea + " k62 " + eb + " k63 " + ec},
+		[]string{"unmarshal", "MapOuter", "x", "json", "-", "m2 k61 " + oa + " k62 " + ob})
+
 	// integer narrowing on assembly
 	g.add("n1", "build", "Narrow", "T", "", "", "m6 k41 i12c k42 i0 k43 i0 k44 i0 k45 i0 k46 i0")
 	g.add("n2", "build", "Narrow", "T", "", "", "m6 k41 i0 k42 i12c k43 i0 k44 i0 k45 i0 k46 i0")
